@@ -232,6 +232,8 @@ pub open spec fn empty_reply_read_post(seg: Seq<Item>, res: Result<EmptyReply, R
 }
 impl EmptyReply {
 //@extract id=empty_reply_read_xml file=netconf/src/message/rpc/mod.rs impl=/impl ReadXml for EmptyReply/ fn=read_xml rules=R1,R2,R7,R11,R15,R17 r7map=option vis=pub
+//@local errors /let mut (\w+) = Errors::new\(\)/
+//@local this /Errors::new\(\);\s*let mut (\w+) = None;/
 //@contract
         ensures
             // (stated for Ok results only: nothing is claimed about the reader after a parse error)
@@ -273,6 +275,8 @@ pub open spec fn data_reply_read_post<D>(seg: Seq<Item>, res: Result<DataReply<D
 }
 impl<D: ReadXml> DataReply<D> {
 //@extract id=data_reply_read_xml file=netconf/src/message/rpc/mod.rs impl=/impl<D: ReadXml> ReadXml for DataReply<D>/ fn=read_xml rules=R1,R2,R7,R11,R15,R17 r7map=option vis=pub
+//@local errors /let mut (\w+) = Errors::new\(\)/
+//@local this /Errors::new\(\);\s*let mut (\w+) = None;/
 //@contract
         ensures
             res is Ok ==> final(reader).remaining@.len() <= old(reader).remaining@.len(),
@@ -320,6 +324,7 @@ pub open spec fn bare_reply_read_post(seg: Seq<Item>, res: Result<BareReply, Rea
 }
 impl BareReply {
 //@extract id=bare_reply_read_xml file=netconf/src/message/rpc/operation/junos/mod.rs impl=/impl ReadXml for BareReply/ fn=read_xml rules=R1,R2,R7,R11,R15,R17 vis=pub
+//@local errors /let mut (\w+) = Errors::new\(\)/
 //@contract
         ensures
             res is Ok ==> final(reader).remaining@.len() <= old(reader).remaining@.len(),
@@ -372,6 +377,8 @@ pub open spec fn load_reply_read_post(seg: Seq<Item>, res: Result<Reply, ReadErr
 }
 impl Reply {
 //@extract id=load_reply_read_xml file=netconf/src/message/rpc/operation/junos/load_configuration.rs impl=/impl ReadXml for Reply/ fn=read_xml rules=R1,R2,R7,R8,R11,R15,R17 r7map=result constpats=xmlns::BASE vis=pub
+//@local errors /let mut (\w+) = Errors::new\(\)/
+//@local this /Errors::new\(\);\s*let mut (\w+) = None;/
 //@contract
         ensures
             res is Ok ==> final(reader).remaining@.len() <= old(reader).remaining@.len(),
